@@ -1,3 +1,58 @@
-From HV Require Import Base.Prelude.
-Theorem C04_placeholder : True. Proof. exact I. Qed.
-Print Assumptions C04_placeholder.
+(* C04 - operations on one object never change another object (store-model part).
+   reach bp ba sb h = the state after CreateForWrite (superblock version sb) and the arbitrary history h, for the
+   repaired code (cfg_fixed); targets s o = the extents (owner, kind) operation o may rewrite in place. *)
+From HV Require Import Base.Prelude Model.Store Proofs.Store Proofs.StoreOps Proofs.StoreInv Proofs.StoreProps.
+Local Open Scope N_scope.
+
+(* an in-place object header write never exceeds the reserved 7+255 bytes (writeToV2 checks before writing) *)
+Theorem C04_header_rewrite_within_reservation : forall x k m w,
+  hdr_write x k m = Some w -> w = CWrite x k 0 (hdr_size m) /\ hdr_size m <= max_hdr.
+Proof. exact C04_header_rewrite_within_reservation_l. Qed.
+Print Assumptions C04_header_rewrite_within_reservation.
+
+(* every byte range written by an operation lies inside an extent owned by its targets
+   (the object itself, the parent group's heap / symbol node) or inside an extent allocated by this operation *)
+Theorem C04_writes_within_owned : forall bp ba sb h o,
+  let s := reach bp ba sb h in let s' := fst (step s o) in
+  ovf (st s') = false ->
+  forall w, In w (wlog (st s')) ->
+  exists e, In e (exts (st s')) /\ start e <= fst w /\ fst w + snd w <= ext_end e /\
+            (targets s o (owner e) (kind_of e) = true \/ next (al (st s)) <= start e).
+Proof. exact C04_writes_within_owned_l. Qed.
+Print Assumptions C04_writes_within_owned.
+
+(* frame: every extent outside the targets is byte-for-byte untouched by the operation *)
+Theorem C04_frame : forall bp ba sb h o,
+  let s := reach bp ba sb h in let s' := fst (step s o) in
+  ovf (st s') = false ->
+  forall e', In e' (exts (st s)) -> targets s o (owner e') (kind_of e') = false ->
+  forall w, In w (wlog (st s')) -> fst w + snd w <= start e' \/ ext_end e' <= fst w.
+Proof. exact C04_frame_l. Qed.
+Print Assumptions C04_frame.
+
+(* in particular all extents of every other object survive and are untouched *)
+Theorem C04_frame_other_objects : forall bp ba sb h o y,
+  let s := reach bp ba sb h in let s' := fst (step s o) in
+  ovf (st s') = false -> (forall k, targets s o y k = false) ->
+  forall e', In e' (exts (st s)) -> owner e' = y ->
+  In e' (exts (st s')) /\ forall w, In w (wlog (st s')) -> fst w + snd w <= start e' \/ ext_end e' <= fst w.
+Proof. exact C04_frame_other_objects_l. Qed.
+Print Assumptions C04_frame_other_objects.
+
+(* what the header reservation bought: with exact-size headers the frame property is false *)
+Theorem C04_refuted_exact_size_headers :
+  let s := run (init cfg_exact_hdr 2) hist_exact in let o := OpAttrSet 1 None 43 true in
+  snd (step s o) = true /\
+  exists e' w, In e' (exts (st s)) /\ targets s o (owner e') (kind_of e') = false /\
+               In w (wlog (st (fst (step s o)))) /\ ~ (fst w + snd w <= start e' \/ ext_end e' <= fst w).
+Proof. exact C04_refuted_exact_size_headers_l. Qed.
+Print Assumptions C04_refuted_exact_size_headers.
+
+(* /repo before 0d24a11 (link object headers at exact size): hard link to a soft link overwrites the next extent *)
+Theorem C04_refuted_exact_size_link_headers :
+  let s := run (init cfg_repo 2) hist_link in let o := OpHardLink 0 1 false 2 in
+  snd (step s o) = true /\
+  exists e' w, In e' (exts (st s)) /\ targets s o (owner e') (kind_of e') = false /\
+               In w (wlog (st (fst (step s o)))) /\ ~ (fst w + snd w <= start e' \/ ext_end e' <= fst w).
+Proof. exact C04_refuted_exact_size_link_headers_l. Qed.
+Print Assumptions C04_refuted_exact_size_link_headers.
